@@ -9,7 +9,11 @@ def filter_tsan(ctx, rr):
     libc internals) are counted and dropped; anything with an iora frame is kept. vf.py keys a
     report by the innermost iora frame of its first two stacks, '?' when a stack has none."""
     keep = []
+    stuck = any(r.get("t") == "stuck" for r in rr.records)
     for rep in rr.san_reports:
+        if rep["kind"] == "tsan:thread-leak" and stuck:
+            continue  # consequence of _exit() with stranded threads still alive; the stranding itself is judged
+
         if rep["kind"].startswith("tsan") and rep["key"].endswith(":?/?"):
             txt = rep["text"]
             if "c04_" in txt or "c05_" in txt or "vf.hpp" in txt:
